@@ -80,12 +80,23 @@ func (to *TargetOptions) IsHealthCheckRequest(r *http.Request) bool {
 }
 
 func (to *TargetOptions) canonicalizeLogHeaders() {
-	for i, header := range to.LogRequestHeaders {
-		to.LogRequestHeaders[i] = http.CanonicalHeaderKey(header)
+	// The slices are shared with the service's target options (and with every
+	// other target created from them), which are read concurrently by the
+	// state snapshot: canonicalize into copies rather than in place.
+	to.LogRequestHeaders = canonicalHeaderKeys(to.LogRequestHeaders)
+	to.LogResponseHeaders = canonicalHeaderKeys(to.LogResponseHeaders)
+}
+
+func canonicalHeaderKeys(headers []string) []string {
+	if headers == nil {
+		return nil
 	}
-	for i, header := range to.LogResponseHeaders {
-		to.LogResponseHeaders[i] = http.CanonicalHeaderKey(header)
+
+	result := make([]string, len(headers))
+	for i, header := range headers {
+		result[i] = http.CanonicalHeaderKey(header)
 	}
+	return result
 }
 
 type Target struct {
